@@ -59,6 +59,10 @@ def run_one(prop, name, patch, tier="quick", extra_env=None):
             shutil.copytree(REPO, copy, symlinks=True,
                             ignore=shutil.ignore_patterns(".git", "__pycache__", "*.pyc", ".pytest_cache"))
             r = subprocess.run(["patch", "-p1", "-s", "-d", copy, "-i", ported], capture_output=True, text=True)
+        if r.returncode != 0 and "/benign/" in patch:
+            # a behaviour-preserving change written for an older commit: on that commit the defects repaired
+            # since would be reported, which says nothing about this change
+            return "STALE", r.stdout + r.stderr, time.time() - t0
         if r.returncode != 0:
             # the seeded change was written against an older commit of /repo (later fix: commits touch
             # the same lines): rebuild the copy from that commit and apply it there
@@ -113,7 +117,7 @@ def main(args):
                 line = l[:260]
                 break
         print("%-8s %-4s %-44s %5.1fs %s" % (verdict, prop, name, dt, line))
-        if verdict != ("QUIET" if benign else "CAUGHT") and not verdict.startswith("CAUGHT@"):
+        if verdict != ("QUIET" if benign else "CAUGHT") and not verdict.startswith("CAUGHT@") and verdict != "STALE":
             bad += 1
             if verdict.startswith("ERROR") or verdict == "PATCH-FAILED":
                 print(out[-1500:])
